@@ -902,7 +902,7 @@ func TestVerifC11Message(t *testing.T) {
 	r.Assume("Forged streams (checksum recomputed) may legitimately be accepted when they encode a well-formed different snapshot; for them only no-panic, no partial state behind an error of the two-phase reader import, and working cleanup are asserted.")
 
 	root := t.TempDir()
-	nCases := r.N(14, 220)
+	nCases := r.N(30, 220)
 	nRandom := r.N(40, 160)
 	for ci := 0; ci < nCases; ci++ {
 		if r.Skip(ci) {
